@@ -82,7 +82,7 @@ BOOST_LIBS = ["-lboost_filesystem"]
 def build_cxx(name, sources, deps=None, flags=None, libs=None, compiler="g++", timeout=900):
     """Compile harness `sources` (under /verif/harness) against /repo's current tree.
     Cached by hash of harness sources + repo sources + flags."""
-    deps = (deps or []) + repo_sources()
+    deps = (deps or []) + repo_sources() + sorted(glob.glob(os.path.join(HARNESS, "*.hpp")))      # every harness header: they are few and shared
     srcs = [os.path.join(HARNESS, s) if not os.path.isabs(s) else s for s in sources]
     flags = flags or ["-O1"]
     key = file_hash(srcs + deps, extra=" ".join(flags) + compiler + name)
@@ -402,7 +402,7 @@ def build_verilated(name, vsources, top, harness, prefix="Vdut", vflags=None, cf
     of a register depends on whether Verilator kept the module hierarchy."""
     vs = [os.path.join(REPO, v) for v in vsources]
     hs = [os.path.join(HARNESS, harness)] + [os.path.join(HARNESS, e) for e in (extra_cpp or [])]
-    key = file_hash(vs + hs + repo_sources() + [os.path.join(HARNESS, "safe.hpp")], extra=name + top + prefix + str(vflags) + cflags)
+    key = file_hash(vs + hs + repo_sources() + sorted(glob.glob(os.path.join(HARNESS, "*.hpp"))), extra=name + top + prefix + str(vflags) + cflags)
     bdir = os.path.join(CACHE, "vl-%s-%s" % (name, key))
     exe = os.path.join(bdir, name)
     if os.path.exists(exe):
